@@ -6,7 +6,7 @@ ordered, disjoint, covering) and the sizes may differ by at most one. Rejected
 calls (nbatch > nelements, ibatch outside [0, nbatch-1], nelements < 1) must raise.
 SiteBatch: for the same (n, nbatch), integer and string site ids in a scrambled
 order: the batches partition the ids in order, search(site) is the index of the
-batch holding the site (every site up to a bound, first/middle/last beyond).
+batch holding the site (every site, both id kinds, up to a bound; first and last site, one id kind alternating, beyond).
 OptionManager: every shape (number of values per option) x value kind x context
 x dictionary key naming: every combination once, dict / JSON-text / file round
 trips equal in both directions, find(k=v) = the tasks whose option k equals v.
@@ -57,13 +57,13 @@ VKINDS = ["ints", "strs", "mixed", "bare"]
 def bounds(tier):
     if tier == "quick":
         return dict(N=60, allsites=60, nopt=4, mmax=3)
-    return dict(N=300, allsites=100, nopt=4, mmax=5)
+    return dict(N=300, allsites=80, nopt=4, mmax=5)
 
 
 def bound_text(tier, seed):
     b = bounds(tier)
     return ("get_batch: all 1 <= nbatch <= nelements <= %d, every ibatch, plus rejected calls; SiteBatch: "
-            "every site searched for nelements <= %d, first/middle/last site beyond; OptionManager: all "
+            "every site searched for nelements <= %d, first and last site (one id kind, alternating) beyond; OptionManager: all "
             "shapes of 1..%d options with 1..%d values x 4 value kinds x 3 contexts x 4 key namings"
             % (b["N"], b["allsites"], b["nopt"], b["mmax"]))
 
@@ -185,7 +185,7 @@ def check_sitebatch(ctx, hyruns, n, nb, sites, idkind):
     if sites == "all":
         todo = ids
     else:
-        todo = sorted(set([ids[0], ids[n // 2], ids[-1]]), key=ids.index)
+        todo = sorted(set([ids[0], ids[-1]]), key=ids.index)
     found = []
     for s in todo:
         try:
@@ -223,7 +223,10 @@ def run_batch_unit(unit, ctx):
             first = False
         if check_batches(ctx, hyruns, n, nb, unit["sites"]) is None:
             continue
-        for idkind in ("int", "str"):
+        kinds = ("int", "str")
+        if unit["sites"] != "all":          # beyond the all-sites bound: one id kind per (n, nbatch)
+            kinds = (kinds[(n + nb) % 2],)
+        for idkind in kinds:
             check_sitebatch(ctx, hyruns, n, nb, unit["sites"], idkind)
 
 
